@@ -79,10 +79,12 @@ struct IObj {
   virtual std::string Do(const std::vector<std::string>& t) = 0;
 };
 
-template <typename T, typename A>
+template <typename T, typename A0, bool Volatile = false>
 struct Obj final : IObj {
-  A a;
-  explicit Obj(T init) : a{init} {}
+  using A = std::conditional_t<Volatile, volatile A0, A0>;
+  A0 storage;
+  A& a;
+  explicit Obj(T init) : storage{init}, a{storage} {}
   using D = std::conditional_t<std::is_pointer_v<T>, std::ptrdiff_t, T>;
 
   std::string Stored() { return Show<T>(a.load(std::memory_order_relaxed)); }
@@ -110,13 +112,32 @@ struct Obj final : IObj {
     }
     if (op == "load" && t.size() == 1) return Val(a.load(std::memory_order_seq_cst));
     if (op == "exchange" && t.size() == 2 && Parse<T>(t[1], x)) return Val(a.exchange(x, std::memory_order_seq_cst));
-    if (op == "cas_strong" && t.size() == 3 && Parse<T>(t[1], x) && Parse<T>(t[2], y)) {
-      bool ok = a.compare_exchange_strong(x, y, std::memory_order_seq_cst, std::memory_order_seq_cst);
+    // compare_exchange forms: <name> = 4 orders (seq_cst, seq_cst); <name>3 = one-order form; <name>4r = (acq_rel, relaxed)
+    if constexpr (Volatile) {
+      // the fiber implementation's volatile compare_exchange overloads do not compile (non-volatile helper): not exercised
+      if (op.rfind("cas_", 0) == 0) return "bad-op";
+    }
+    if ((op == "cas_strong" || op == "cas_strong3" || op == "cas_strong4r") && t.size() == 3 && Parse<T>(t[1], x) &&
+        Parse<T>(t[2], y)) {
+      bool ok;
+      if constexpr (Volatile) {
+        ok = false;
+      } else if (op == "cas_strong") {
+        ok = a.compare_exchange_strong(x, y, std::memory_order_seq_cst, std::memory_order_seq_cst);
+      } else if (op == "cas_strong3") {
+        ok = a.compare_exchange_strong(x, y, std::memory_order_seq_cst);
+      } else {
+        ok = a.compare_exchange_strong(x, y, std::memory_order_acq_rel, std::memory_order_relaxed);
+      }
       return std::string("cas ") + (ok ? "1 " : "0 ") + Show<T>(x) + " " + Stored();
     }
-    if (op == "cas_weak" && t.size() == 4 && Parse<T>(t[1], x) && Parse<T>(t[2], y) && (t[3] == "0" || t[3] == "1")) {
+    if ((op == "cas_weak" || op == "cas_weak3" || op == "cas_weak4r") && t.size() == 4 && Parse<T>(t[1], x) &&
+        Parse<T>(t[2], y) && (t[3] == "0" || t[3] == "1")) {
       bool spurious = t[3] == "1";
       bool ok;
+      if constexpr (Volatile) {
+        ok = false;
+      } else
       if (gImpl == 0) {
         // std::atomic on this platform never fails spuriously; the std *contract* for a spurious failure is
         // "false, expected := current value, object unchanged" -- produce exactly that as the reference.
@@ -128,7 +149,13 @@ struct Obj final : IObj {
         }
       } else {
         yaclib::SetAtomicFailFrequency(spurious ? 1 : 0);  // 1: GetRandNumber(1) == 0 always; 0: never
-        ok = a.compare_exchange_weak(x, y, std::memory_order_seq_cst, std::memory_order_seq_cst);
+        if (op == "cas_weak") {
+          ok = a.compare_exchange_weak(x, y, std::memory_order_seq_cst, std::memory_order_seq_cst);
+        } else if (op == "cas_weak3") {
+          ok = a.compare_exchange_weak(x, y, std::memory_order_seq_cst);
+        } else {
+          ok = a.compare_exchange_weak(x, y, std::memory_order_acq_rel, std::memory_order_relaxed);
+        }
         yaclib::SetAtomicFailFrequency(0);
       }
       return std::string("cas ") + (ok ? "1 " : "0 ") + Show<T>(x) + " " + Stored();
@@ -149,7 +176,8 @@ struct Obj final : IObj {
           if (op == "xor_assign") return Val(a ^= d);
         }
       }
-      if constexpr (!std::is_floating_point_v<T>) {
+      // (the wrapper's volatile ++/-- overloads do not compile either: `static_cast<Impl&>(*this)` on a volatile object)
+      if constexpr (!std::is_floating_point_v<T> && !Volatile) {
         if (t.size() == 1) {
           if (op == "pre_inc") return Val(++a);
           if (op == "post_inc") return Val(a++);
@@ -162,11 +190,13 @@ struct Obj final : IObj {
   }
 };
 
-template <typename A>
+template <typename A0, bool Volatile = false>
 struct FlagObj final : IObj {
-  A a;
+  using A = std::conditional_t<Volatile, volatile A0, A0>;
+  A0 storage;
+  A& a;
   bool shadow;
-  explicit FlagObj(bool init) : shadow{init} {
+  explicit FlagObj(bool init) : a{storage}, shadow{init} {
     a.clear(std::memory_order_seq_cst);
     if (init) (void)a.test_and_set(std::memory_order_seq_cst);
   }
@@ -184,19 +214,35 @@ struct FlagObj final : IObj {
   }
 };
 
-template <typename T>
+template <typename T, bool Volatile = false>
 std::unique_ptr<IObj> Make(const std::string& init, std::string& shown) {
   T v{};
   if (!Parse<T>(init, v)) return nullptr;
   shown = Show<T>(v);
   switch (gImpl) {
-    case 0: return std::make_unique<Obj<T, std::atomic<T>>>(v);
-    case 1: return std::make_unique<Obj<T, yaclib::detail::Atomic<yaclib::detail::fiber::Atomic<T>, T>>>(v);
-    default: return std::make_unique<Obj<T, yaclib::detail::Atomic<std::atomic<T>, T>>>(v);
+    case 0: return std::make_unique<Obj<T, std::atomic<T>, Volatile>>(v);
+    case 1: return std::make_unique<Obj<T, yaclib::detail::Atomic<yaclib::detail::fiber::Atomic<T>, T>, Volatile>>(v);
+    default: return std::make_unique<Obj<T, yaclib::detail::Atomic<std::atomic<T>, T>, Volatile>>(v);
   }
 }
 
 std::unique_ptr<IObj> MakeAny(const std::string& ty, const std::string& init, std::string& shown) {
+  // volatile-qualified objects (v-prefixed types) go through the volatile overloads
+  if (ty == "vu8") return Make<std::uint8_t, true>(init, shown);
+  if (ty == "vi32") return Make<std::int32_t, true>(init, shown);
+  if (ty == "vu64") return Make<std::uint64_t, true>(init, shown);
+  if (ty == "vbool") return Make<bool, true>(init, shown);
+  if (ty == "vptr") return Make<int*, true>(init, shown);
+  if (ty == "vf64") return Make<double, true>(init, shown);
+  if (ty == "vflag") {
+    bool b = init == "1";
+    shown = b ? "1" : "0";
+    switch (gImpl) {
+      case 0: return std::make_unique<FlagObj<std::atomic_flag, true>>(b);
+      case 1: return std::make_unique<FlagObj<yaclib::detail::AtomicFlag<yaclib::detail::fiber::AtomicFlag>, true>>(b);
+      default: return std::make_unique<FlagObj<yaclib::detail::AtomicFlag<std::atomic_flag>, true>>(b);
+    }
+  }
   if (ty == "u8") return Make<std::uint8_t>(init, shown);
   if (ty == "i8") return Make<std::int8_t>(init, shown);
   if (ty == "u16") return Make<std::uint16_t>(init, shown);
